@@ -3,8 +3,8 @@ package ssaexec
 
 import (
 	"fmt"
-	"reflect"
 	"go/types"
+	"reflect"
 	"sort"
 
 	"golang.org/x/tools/go/ssa"
